@@ -20,7 +20,7 @@ OPTS = [[], ["--leaf-changes-only"], ["--harmless"], ["--redundant"], ["--non-re
 
 
 def plan(tier):
-    return {"n": 240 if tier == "quick" else 2500, "floor": 40 if tier == "quick" else 400}
+    return {"n": 240 if tier == "quick" else 960, "floor": 40 if tier == "quick" else 153}
 
 
 def rule(tier):
